@@ -57,6 +57,27 @@ func (P *Program) RefsMethod(fn *ssa.Function, depth int, names ...string) bool 
 	return rec(fn, depth)
 }
 
+// orRefs widens an inline policy: a helper admitted by base is also traversed
+// when it (transitively) calls one of the named methods, so that a rule about
+// those calls sees them after they were extracted into a helper.
+func (c *Ctx) orRefs(policy, base func(*ssa.Function) bool, names ...string) func(*ssa.Function) bool {
+	memo := map[*ssa.Function]bool{}
+	return func(fn *ssa.Function) bool {
+		if policy(fn) {
+			return true
+		}
+		if !base(fn) {
+			return false
+		}
+		v, ok := memo[fn]
+		if !ok {
+			v = c.P.RefsMethod(fn, 3, names...)
+			memo[fn] = v
+		}
+		return v
+	}
+}
+
 func (c *Ctx) strategyReaching(base func(*ssa.Function) bool) func(*ssa.Function) bool {
 	memo := map[*ssa.Function]bool{}
 	return func(fn *ssa.Function) bool {
@@ -339,9 +360,9 @@ func c12R2(c *Ctx) {
 		if en.role == "endpoint" || !c.P.RefsMethod(en.fn, 3, ".GrantScope", ".GrantAudience") {
 			continue
 		}
-		cfg := ExploreConfig{Inline: c.storageReaching(handlerInline)}
+		cfg := ExploreConfig{Inline: c.orRefs(c.storageReaching(handlerInline), handlerInline, ".GrantScope", ".GrantAudience")}
 		if recvTypeName(en.fn) == pkgJWTB+".Handler" {
-			cfg = ExploreConfig{Inline: c.strategyReaching(handlerInline)}
+			cfg = ExploreConfig{Inline: c.orRefs(c.strategyReaching(handlerInline), handlerInline, ".GrantScope", ".GrantAudience")}
 		}
 		ex := c.Explore(en.fn, cfg, "grants")
 		if !c.complete(ex, rule, en.role, en.fn) {
